@@ -51,6 +51,8 @@ def gen_cases(run):
                 c["n"] = -(-c["M"] // 2)
                 c["batch_size"] = rng.choice([None, None, 1, 2, 3, c["n"], c["n"] + 2])
         spec = {"kind": "stream", "g": g, "budget": H.gen_budget(rng, g), "cfgs": cfgs, "seed": rng.randrange(10 ** 6)}
+        if cfgs and rng.random() < 0.2:
+            spec["types"] = {"intervals": rng.choice(["np", "np32"])}  # intervals given as numpy integers
         if cfgs and rng.random() < 0.25:
             spec["pre_batch_size"] = rng.randint(1, g["N"])  # config objects shared with an earlier scheduler of another batch size
         if not cfgs:
@@ -96,7 +98,7 @@ def run_case(run, spec):
     g, budget, cfgs = spec["g"], spec["budget"], spec["cfgs"]
     (bkind, bval), = budget.items()
     M = g["M"]
-    ok, built = call_real(run, lambda: H.build_real(g, budget, cfgs, spec["seed"], "rec", pre_batch_size=spec.get("pre_batch_size")), crash_key="ctor-crash", what="InterleavedSampler(...)")
+    ok, built = call_real(run, lambda: H.build_real(g, budget, cfgs, spec["seed"], "rec", pre_batch_size=spec.get("pre_batch_size"), types=spec.get("types")), crash_key="ctor-crash", what="InterleavedSampler(...)")
     if not ok:
         return
     if spec.get("pre_batch_size"):
